@@ -142,11 +142,25 @@ func run(c *core.Case, id string, gcHeavy bool) {
 				continue
 			}
 			src := env.DB.VerifKeySources(k.cf, k.key)
+			// The recorded finding concerns ties among tables of the ingest buffer
+			// (and what ingest compactions make of them). One ingest table over one
+			// table of the level's sorted run is resolved correctly (the ingest
+			// buffer is searched first and wins ties), so only >= 2 ingest tables,
+			// or duplicates inside one table (a merged tie), taint a key.
 			var classes []string
 			for _, s := range src {
 				cl := env.SourceClass(s)
+				if cl == "deep" && s.Kind != "ingest" {
+					if len(s.Entries) > 1 {
+						classes = append(classes, "deep", "deep")
+					}
+					continue
+				}
 				if cl == "l0f" || cl == "l0c" || cl == "deep" {
 					classes = append(classes, cl)
+					if cl == "deep" && len(s.Entries) > 1 {
+						classes = append(classes, "deep")
+					}
 				}
 			}
 			if len(classes) < 2 {
